@@ -9,5 +9,5 @@ for l in open(sys.argv[1]):
         c[k] += 1
     elif l.startswith(("KNOWN", "OK", "MACHINERY", "EVIDENCE")):
         print(l.rstrip()[:300])
-for k, v in c.most_common(40):
+for k, v in c.most_common(14):
     print(v, dict(k))
